@@ -342,3 +342,72 @@ def stage():
 
 
 X.EXTRA_STAGES.append(stage)
+
+
+BOUNDED_FIELDS = ["fee_rate", "protocol_fee_rate", "sqrt_price", "tick_spacing", "tick_current_index", "default_fee_rate",
+                  "default_protocol_fee_rate", "default_base_fee_rate", "adaptive_fee_constants", "adaptive_fee_variables",
+                  "filter_period", "decay_period", "reduction_factor", "adaptive_fee_control_factor", "max_volatility_accumulator",
+                  "tick_group_size", "major_swap_threshold_ticks", "trade_enable_timestamp"]
+
+
+def strip_cfg_test(txt):
+    """remove `#[cfg(test)]` items (modules, fns, impls) from a source text"""
+    out = txt
+    while True:
+        m = re.search(r"#\[cfg\(test\)\]\s*(?:#\[[^\]]*\]\s*)*(?:pub(?:\([^)]*\))?\s+)?(mod|fn|impl|use|const|static|struct)\b", out)
+        if not m:
+            return out
+        if m.group(1) in ("use", "const", "static"):
+            e = out.index(";", m.end())
+            out = out[:m.start()] + out[e + 1:]
+            continue
+        b = out.find("{", m.end())
+        semi = out.find(";", m.end())
+        if semi != -1 and (b == -1 or semi < b):
+            out = out[:m.start()] + out[semi + 1:]
+            continue
+        e = matching(out, b, "{", "}")
+        out = out[:m.start()] + out[e + 1:]
+
+
+def gen_write_sites():
+    files = sorted(glob.glob(os.path.join(SRC, "**", "*.rs"), recursive=True))
+    rows = []
+    for f in files:
+        rel = os.path.relpath(f, SRC)
+        if rel.startswith("tests/") or "test_utils" in rel or rel.startswith("constants/test"):
+            continue
+        txt = strip_cfg_test(strip_comments(X.read(rel)))
+        # function spans
+        fns = []
+        for m in re.finditer(r"\bfn\s+(\w+)\s*(?:<[^>{}]*>)?\s*\(", txt):
+            try:
+                pe = matching(txt, m.end() - 1, "(", ")")
+            except ExtractError:
+                continue
+            b = txt.find("{", pe)
+            semi = txt.find(";", pe)
+            if b == -1 or (semi != -1 and semi < b):
+                continue
+            try:
+                e = matching(txt, b, "{", "}")
+            except ExtractError:
+                continue
+            fns.append((b, e, m.group(1)))
+        for fld in BOUNDED_FIELDS:
+            for m in re.finditer(r"(?:\bself|\b\w+|\))\s*\.\s*" + fld + r"\s*(?:=(?!=)|\+=|-=)", txt):
+                pos = m.start()
+                inner = [x for x in fns if x[0] <= pos <= x[1]]
+                fn = min(inner, key=lambda x: x[1] - x[0])[2] if inner else "?"
+                rows.append((fld, rel, fn))
+    rows = sorted(set(rows))
+    out = "namespace WP.Gen\n\n/-- (field, file, enclosing fn) of every assignment to a bounded field outside #[cfg(test)] code -/\n"
+    out += "def writeSites : List (String × String × String) := [\n" + ",\n".join(f"  ({lean_str(a)}, {lean_str(b)}, {lean_str(c)})" for a, b, c in rows) + "]\n\nend WP.Gen\n"
+    return write_if_changed("WriteSites.lean", out)
+
+
+def stage2():
+    return ["WriteSites.lean"] if gen_write_sites() else []
+
+
+X.EXTRA_STAGES.append(stage2)
